@@ -13,9 +13,17 @@ class Crash(BaseException):
     pass
 
 
+def die(what):
+    """process death: no unwinding, no flushing of buffered file objects, no finally blocks"""
+    os._exit(77)
+
+
 FS_CALLS = [("tempfile", "mkstemp"), ("os", "write"), ("os", "close"), ("shutil", "move"), ("os", "rename"), ("os", "replace"),
             ("os", "fdopen"), ("builtins", "open"), ("os", "unlink"), ("os", "remove"), ("shutil", "copy"), ("shutil", "copyfile"),
             ("shutil", "copy2"), ("os", "open"), ("os", "fsync")]
+
+
+os_write = os.write
 
 
 class Injector:
@@ -25,6 +33,11 @@ class Injector:
     def __init__(self, k, mode):
         self.k, self.mode, self.n, self.active, self.saved, self.fired = k, mode, 0, False, [], None
         self.log = []
+        self.report_fd = None
+
+    def report(self, what):
+        if self.report_fd is not None:
+            os_write(self.report_fd, (what + "|" + ",".join(self.log)).encode())
 
     def wrap(self, modname, fname, real):
         inj = self
@@ -37,13 +50,14 @@ class Injector:
             inj.log.append("%s.%s" % (modname, fname))
             if me == inj.k:
                 inj.fired = "%s.%s/%s" % (modname, fname, inj.mode)
+                inj.report(inj.fired)
                 if inj.mode == "before":
-                    raise Crash(inj.fired)
+                    die(inj.fired)
                 if inj.mode == "mid" and fname == "write" and len(a) > 1 and isinstance(a[1], (bytes, bytearray)):
                     real(a[0], a[1][: len(a[1]) // 2])
-                    raise Crash(inj.fired)
+                    die(inj.fired)
                 r = real(*a, **kw)
-                raise Crash(inj.fired)
+                die(inj.fired)
             r = real(*a, **kw)
             if fname in ("open", "fdopen") and modname in ("builtins", "os") and hasattr(r, "write") and \
                     any(m in str(a[1:2] or kw.get("mode", "")) for m in ("w", "a", "+")):
@@ -75,15 +89,15 @@ class FileProxy:
         inj.log.append("file.write")
         if inj.n == inj.k:
             inj.fired = "file.write/" + inj.mode
+            inj.report(inj.fired)
             if inj.mode == "before":
-                raise Crash(inj.fired)
+                die(inj.fired)
             if inj.mode == "mid":
                 self._f.write(data[: len(data) // 2])
                 self._f.flush()
-                raise Crash(inj.fired)
-            self._f.write(data)
-            self._f.flush()
-            raise Crash(inj.fired)
+                die(inj.fired)
+            self._f.write(data)          # buffered: dies before any flush
+            die(inj.fired)
         return self._f.write(data)
 
     def __getattr__(self, k):
@@ -129,17 +143,26 @@ def crash_sweep(max_k=12):
                         finally:
                             _inj.active = False
                     T._compile_module_file = guarded
-                    crashed = False
-                    try:
-                        with inj:
-                            try:
+                    r_fd, w_fd = os.pipe()
+                    inj.report_fd = w_fd
+                    pid = os.fork()
+                    if pid == 0:
+                        # the writing process
+                        os.close(r_fd)
+                        try:
+                            with inj:
                                 Template(filename=src, uri="t.html", module_directory=os.path.join(d, "mods"), input_encoding="utf-8")
-                            except Crash:
-                                crashed = True
-                            except Exception as e:      # the crash surfaced as another error: still a crash
-                                crashed = True
-                    finally:
-                        T._compile_module_file = orig
+                        except BaseException:
+                            os._exit(78)
+                        os._exit(0)
+                    os.close(w_fd)
+                    _, status = os.waitpid(pid, 0)
+                    msg = os.read(r_fd, 65536).decode()
+                    os.close(r_fd)
+                    T._compile_module_file = orig
+                    if msg:
+                        inj.fired, _, lg = msg.partition("|")
+                        inj.log = lg.split(",")
                     if not inj.fired:
                         shutil.rmtree(d, ignore_errors=True)
                         continue
